@@ -17,7 +17,7 @@ def build_graph(case):
     L = R.labels_of(case, n)          # vertex labels 0..N-1, 1000 + 7v or 70000 + v: the matrices do not depend on them
     G.add_nodes_from(L)
     for v in range(n):
-        G.nodes[L[v]][NN.JOINT_DEGREE] = tuple(case["jd"][v])
+        G.nodes[L[v]][NN.JOINT_DEGREE] = list(case["jd"][v]) if case.get("jd_as_list") else tuple(case["jd"][v])
     for a, b, t, m in case["edges"]:
         G.add_edge(L[a], L[b])
         G.edges[L[a], L[b]][NN.TOPOLOGY] = t
@@ -78,7 +78,8 @@ def cases(chk):
             continue
         if rng.random() < 0.3:      # annotations need not agree with the actual degrees: the law is stated on annotations
             jd = [tuple(max(1, x + rng.choice([0, 0, 1])) for x in j) for j in jd]
-        cs.append({"edges": es, "jd": jd, "tops": tops, "ncalls": rng.choice([1, 2, 3, 4]), "labels": rng.choice(["id", "shift", "big"])})
+        cs.append({"edges": es, "jd": jd, "tops": tops, "ncalls": rng.choice([1, 2, 3, 4]), "labels": rng.choice(["id", "shift", "big"]),
+                   "jd_as_list": i % 3 == 1})          # annotations stored as lists (the generators keep whatever sequence they get)
     return cs
 
 
